@@ -125,6 +125,11 @@ pub fn generate(rng: &mut Rng, property: &str) -> BScn {
         } else {
             None
         },
+        mirror: if rng.chance(0.25) {
+            Some(rng.chance(0.5))
+        } else {
+            None
+        },
         order: Order {
             other_plugin_first: rng.chance(0.5),
             register_before_plugin: rng.chance(0.3),
@@ -362,6 +367,7 @@ pub fn shrink_candidates(s: &BScn) -> Vec<BScn> {
             c.order.sequence.retain(|s| *s != "animate_other");
         });
         push(&|c| c.extra_entity = None);
+        push(&|c| c.mirror = None);
         push(&|c| c.chain = None);
         push(&|c| {
             if let Some(ch) = c.chain.as_mut() {
@@ -436,6 +442,7 @@ pub fn size(s: &BScn) -> usize {
     let mut n = s.frames.len() * 2 + s.frames.iter().map(|f| f.ops.len() * 2).sum::<usize>();
     n += s.cfg.second.is_some() as usize * 3;
     n += s.cfg.extra_entity.is_some() as usize * 3;
+    n += s.cfg.mirror.is_some() as usize * 3;
     n += s.cfg.chain.as_ref().map(|c| 1 + c.len()).unwrap_or(0);
     n += s.cfg.start_disabled as usize + s.cfg.initial_start_with as usize;
     n += (s.cfg.order.sequence != legal_sequences(s.cfg.selector, s.cfg.second.is_some())[0]) as usize
